@@ -15,6 +15,8 @@ import (
 	"math/big"
 	"math/bits"
 
+	"github.com/ChainSafe/gossamer/lib/crypto/sr25519"
+	"github.com/gtank/merlin"
 	xblake2b "golang.org/x/crypto/blake2b"
 )
 
@@ -301,4 +303,30 @@ func vfThresholdPipeline(c1, c2 uint64, n int) (*big.Float, float64) {
 	}
 	p := vfSub(vfFi(1), y)
 	return vfF().SetMantExp(p, 128), q
+}
+
+// vfLotteryValue is the 128-bit lottery value of a VRF output as Substrate defines it:
+// u128::from_le_bytes(inout.make_bytes::<[u8;16]>(b"substrate-babe-vrf")). It goes through the schnorrkel library only
+// (attach the input, make_bytes), not through lib/babe's threshold comparison.
+func vfLotteryValue(out [sr25519.VRFOutputLength]byte, pub *sr25519.PublicKey, rnd Randomness, slot, epoch uint64) (*big.Int, error) {
+	t := merlin.NewTranscript("BABE")
+	var b8 [8]byte
+	binary.LittleEndian.PutUint64(b8[:], slot)
+	t.AppendMessage([]byte("slot number"), b8[:])
+	binary.LittleEndian.PutUint64(b8[:], epoch)
+	t.AppendMessage([]byte("current epoch"), b8[:])
+	t.AppendMessage([]byte("chain randomness"), rnd[:])
+	inout, err := sr25519.AttachInput(out, pub, t)
+	if err != nil {
+		return nil, err
+	}
+	le, err := inout.MakeBytes(16, []byte("substrate-babe-vrf"))
+	if err != nil {
+		return nil, err
+	}
+	be := make([]byte, 16)
+	for i := range le {
+		be[15-i] = le[i]
+	}
+	return new(big.Int).SetBytes(be), nil
 }
